@@ -7,10 +7,18 @@ from . import core_cfg as C
 PID = 'C03'
 USER = ['step', 'on_run', 'on_wait', 'on_finish', 'on_except', 'on_kill', 'on_running', 'on_waiting', 'on_finished',
         'on_excepted', 'on_killed', 'on_exit_running', 'on_exit_waiting', 'on_close', 'on_output_emitting',
-        'on_output_emitted', 'cb_exiting', 'cb_entering', 'cb_entered']
+        'on_output_emitted', 'cb_exiting', 'cb_entering', 'cb_entered', 'on_create']
 SILENT = ['L_running', 'L_waiting', 'L_paused', 'L_played', 'L_output', 'L_finished', 'L_excepted', 'L_killed', 'cleanup']
 PP = ['on_pausing', 'on_paused', 'on_playing']
-INV = ['C03_UserFault', 'C03_ListenerFault', 'C03_PausePlayFault', 'C03_NoHalf', 'C03_NothingEscapes']
+INV = ['C03_UserFault', 'C03_CtorFault', 'C03_Construction', 'C03_ListenerFault', 'C03_PausePlayFault', 'C03_NoHalf', 'C03_NothingEscapes']
+OV = [('WithComm', 'TRUE')]
+
+
+def ctor_plans():
+    """faults inside the constructor: on_create, and the first announcement (tolerated kinds and another one)"""
+    pe = core_model.plan_entry
+    return [[]] + [[pe('on_create', 1, 'fault', 'X')]] + [[pe('bcast', o, 'fault', kind)] for o in (1, 2)
+                                                          for kind in ('ConnectionClosed', 'TimeoutError', 'X')]
 
 
 def fault_plans(occs):
@@ -53,11 +61,20 @@ def run(tier, seed):
         mc = [dict(name='C03_faults', progs=C.fam(scen), plans=fault_plans((1, 2, 3)), alphabet=alpha, k=1, invariants=INV, **kw),
               dict(name='C03_faults2', progs=C.fam(['P03', 'P04', 'P12']), plans=fault_plans((1, 2)), alphabet=['pause', 'play', 'kill'], k=2, invariants=INV, **kw)]
         rp = [dict(name='C03_faults', progs=C.fam(['P03', 'P04', 'P12']), plans=fault_plans((1, 2)), alphabet=alpha, k=1, **kw)]
+        ctor = dict(name='C03_ctor', progs=C.fam(['P03', 'P12']), plans=ctor_plans(), alphabet=['kill', 'rpc'], k=1, overrides=OV, **kw)
     else:
         mc = [dict(name='C03_faults', progs=C.fam(C.ALL), plans=fault_plans((1, 2, 3)), alphabet=alpha, k=2, invariants=INV, **kw),
               dict(name='C03_faults3', progs=C.fam(['P03', 'P04', 'P12']), plans=fault_plans((1, 2, 3)), alphabet=['pause', 'play', 'kill', 'resume'], k=3, invariants=INV, **kw)]
         rp = [dict(name='C03_faults', progs=C.fam(scen), plans=fault_plans((1, 2, 3)), alphabet=alpha, k=1, **kw),
               dict(name='C03_faults2', progs=C.fam(['P03', 'P04', 'P12']), plans=fault_plans((1, 2)), alphabet=['pause', 'play', 'kill'], k=2, **kw)]
+        ctor = dict(name='C03_ctor', progs=C.fam(scen), plans=ctor_plans(), alphabet=['kill', 'rpc', 'pause'], k=2, overrides=OV, **kw)
+    # a paused process (its stepping task blocked on the pause gate) that is failed from outside: stepping must still return
+    paused = dict(name='C03_paused', progs=C.fam(['P02', 'P03'] if tier == 'quick' else scen), plans=[[]],
+                  alphabet=['pause', 'cbraise', 'fail', 'play'], k=2 if tier == 'quick' else 3, **kw)
+    mc.append(dict(paused, invariants=INV + ['C02_TaskReturns']))
+    rp.append(paused)
+    mc.append(dict(ctor, invariants=INV))
+    rp.append(dict(ctor, run_kw={'comm': True}))
     n, bad = constructor_faults()
     for b in bad:
         path = core_check.write_replay(PID, 'ctor', {'kind': 'constructor-fault', 'what': b})
